@@ -10,6 +10,8 @@ import (
 // c18.go, c20codes.go). The evidence of a property lists the note of every
 // shared rule that produced an obligation in that run.
 var sharedRuleNotes = map[string]string{
+	"context-propagated":                "at every call site inside a function that receives a context, the context passed down derives from the function's own (never Background / TODO / NewContext / http.Request.Context)",
+	"with-installs-arguments":           "JWTClaims.With sets ExpiresAt, Scope and Audience to its arguments on every path",
 	"registered-claims-win":             "claim rendering (JWTClaims.ToMap / IDTokenClaims.ToMap): every registered claim is written after the free-form extras were copied in, so an extra can never replace it",
 	"collaborators-wired":               "compose factories assign every interface-typed field that a method of the handler they return invokes",
 	"responsible-for-exactly-one-grant": "every grant-type based CanHandleTokenEndpointRequest answers true only under ExactOne(grant types, its grant)",
